@@ -279,6 +279,10 @@ fn keep_or_forget(target: Option<Oid>, cc: Cc<Node>) {
 
 pub fn run_fin_op(me: &Node, op: &FinOp) {
     let my = me.id;
+    if matches!(op, FinOp::UpgradeOwnWeak(_) | FinOp::StashSlot(_) | FinOp::StashNeighbourSlot(..) | FinOp::StoreSlotInto(..) | FinOp::UpgradeHandle(_) | FinOp::UpgradeOwnWeakInto(..)) {
+        // a finalizer is about to make something reachable again (C06: this must be safe)
+        w(|w| w.fin_res_op_call = w.call);
+    }
     match op {
         FinOp::UpgradeOwnWeak(ws) => {
             #[cfg(feature = "weak-ptrs")]
@@ -343,6 +347,39 @@ pub fn run_fin_op(me: &Node, op: &FinOp) {
                 t
             });
             store_into_slot(hoid, hpayload, s2, c, t);
+        }
+        FinOp::UpgradeOwnWeakInto(ws, s) => {
+            #[cfg(feature = "weak-ptrs")]
+            {
+                let (ws, s) = ((*ws as usize) % 2, (*s as usize) % NSLOTS);
+                let got = {
+                    let b = me.weaks[ws].borrow();
+                    match (b.as_ref(), w(|w| w.objs[my as usize].wslots[ws])) {
+                        (Some(wk), Some(t2)) => prim_upgrade(wk, t2, false).map(|cc| (t2, cc)),
+                        _ => None,
+                    }
+                };
+                if let Some((t2, cc)) = got {
+                    let ok = w(|w| match t2 {
+                        Some(t) => {
+                            let o = &w.objs[t as usize];
+                            !o.dropped && !o.moved_out && !o.uninit && !o.never_init && o.in_box
+                        }
+                        None => false,
+                    });
+                    if ok {
+                        w(|w| {
+                            w.ptr_ops_in_callbacks = true;
+                            note_resurrection(w, t2.unwrap());
+                        });
+                        store_into_slot(my, me as *const Node as usize, s, cc, t2.unwrap());
+                    } else {
+                        std::mem::forget(cc);
+                    }
+                }
+            }
+            #[cfg(not(feature = "weak-ptrs"))]
+            let _ = (ws, s);
         }
         FinOp::DropSlot(s) => {
             let s = (*s as usize) % NSLOTS;
@@ -883,6 +920,16 @@ pub fn do_new_cyclic(spec: &Spec, clo: &[CloOp]) {
                 }
                 if exec1 != exec0 {
                     w.stats.classes.insert("cyclic-collection-panicked".into());
+                }
+                // C14: "all memory is released" - no box allocated by this call may survive it, whether
+                // the closure or the collection started by new_cyclic panicked
+                let known: std::collections::BTreeSet<usize> = w.objs.iter().filter(|o| o.id != oid && o.box_addr != 0).map(|o| o.box_addr).collect();
+                let node_box = payload_offset() + std::mem::size_of::<Node>();
+                for b in alloc::blocks_since(serial0) {
+                    if b.live && b.size >= node_box && b.size < node_box + 64 && !known.contains(&b.addr) {
+                        w.violation(&["C14", "C03"], "cyclic-box-leaked", "cyclic-box-leaked".into(), format!("a {}-byte box allocated by the panicked new_cyclic call of obj{} is still allocated", b.size, oid), false);
+                        break;
+                    }
                 }
             });
             std::panic::resume_unwind(payload);
